@@ -20,7 +20,7 @@ pub fn def() -> CheckDef {
         rule: "seeded histories over <= 4 streams of non-zero pattern writes, set_len shrink, set_len grow, removal of other non-zero streams, create + grow, with lengths on either side of 64*k, 4096 and sector boundaries; every written byte is attributable (position-dependent pattern keyed by a per-write nonce, never 0). Oracle: every byte read (through the growing handle, a fresh handle, the full dump after every step, and after reopen) equals the last write to that stream position or zero. Non-trivial: >= 1 successful set_len that grows a stream; distinct = distinct (seam log, final image) hash.",
         assumptions: &["reference model as C01"],
         cpu_limit_s: 300,
-        fault_kinds: "every fourth case: F-SR / F-SW / F-EI chunking faults (rate-based); otherwise none (space-reuse histories)",
+        fault_kinds: "every fourth case: F-SR / F-SW / F-EI chunking faults (rate-based); every 64th case: F-CR at up to 40 evenly spread seam calls of one growing operation, the crash image reopened and every stream grown; otherwise none (space-reuse histories)",
         count_subruns: false,
         expect_probes: &[],
     }
@@ -37,8 +37,222 @@ pub fn flags() -> Flags {
     }
 }
 
+/// "Regardless of earlier history" includes a history that ended in a crash: a process that
+/// died in the middle of an appending write-back or of a resize leaves chains that are longer
+/// than the recorded stream length, with the dead operation's bytes in the surplus.  One case =
+/// a small file, one growing operation on one stream, and a crash (F-CR) at up to 40 evenly spread
+/// seam calls of that operation; each crash image that permissive open still accepts is reopened and every
+/// stream in it is grown: the gained bytes must read as zero.
+fn gen_crash(rng: &mut Rng) -> Case {
+    use crate::ops::{Op, Whence};
+    let version = if rng.chance(1, 2) { 3 } else { 4 };
+    let mut c = Case::new("C08", "crash-image", version);
+    c.bufsize = *rng.pick(crate::gen::BUFSIZES);
+    let sizes: &[u64] = &[0, 10, 64, 100, 1000, 4000, 4095, 4096, 5000, 9000, 20_000];
+    let mut nonce = 5000u32;
+    let n = rng.range(1, 3);
+    for i in 0..n {
+        nonce += 1;
+        c.ops.push(Op::WriteWhole { path: format!("/s{}", i), len: *rng.pick(sizes), nonce });
+    }
+    if rng.chance(1, 3) {
+        // freed space with old non-zero bytes in it
+        nonce += 1;
+        c.ops.push(Op::WriteWhole { path: "/gone".into(), len: *rng.pick(&[300u64, 5000, 12_000]), nonce });
+        c.ops.push(Op::RemoveStream("/gone".into()));
+    }
+    c.params.insert("build_len".into(), c.ops.len() as i64);
+    // the operation that is cut short
+    c.ops.push(Op::HOpen { h: 0, path: "/s0".into() });
+    match rng.below(3) {
+        0 => {
+            c.ops.push(Op::HSeek { h: 0, whence: Whence::End, off: 0, uoff: 0 });
+            c.ops.push(Op::HWriteAll { h: 0, len: *rng.pick(&[1usize, 100, 600, 4096, 7000]), nonce: nonce + 1 });
+            c.ops.push(Op::HFlush { h: 0 });
+        }
+        1 => {
+            c.ops.push(Op::HSeek { h: 0, whence: Whence::Start, off: 0, uoff: 0 });
+            c.ops.push(Op::HWriteAll { h: 0, len: *rng.pick(&[200usize, 4096, 5000, 30_000]), nonce: nonce + 1 });
+            c.ops.push(Op::HFlush { h: 0 });
+        }
+        _ => {
+            c.ops.push(Op::HSetLen { h: 0, n: *rng.pick(&[0u64, 10, 100, 4095, 4096, 6000, 30_000]) });
+        }
+    }
+    c
+}
+
+fn run_crash(case: &Case) -> Outcome {
+    use crate::case::Violation;
+    use crate::disk::{Fault, FaultKind, SimDisk};
+    use crate::driver::Lib;
+    use crate::ops::{Op, Res};
+    let mut o = Outcome::default();
+    let build_len = (case.param("build_len", 0) as usize).min(case.ops.len());
+    // the file before the operation that is cut short
+    crate::driver::set_clock(crate::ops::T { secs: 1_600_000_000, nanos: 0 });
+    let base: Vec<u8> = {
+        let disk = SimDisk::new(Vec::new());
+        let mut lib = match Lib::create_cfg(disk.clone(), case.version, case.bufsize) {
+            Ok(l) => l,
+            Err(_) => return o,
+        };
+        lib.budget_base = 400_000;
+        for op in case.ops[..build_len].iter() {
+            if matches!(lib.exec(op), Res::Panic(_) | Res::Hang) {
+                o.stats.probe("base_unusable(other property)");
+                return o;
+            }
+        }
+        lib.close();
+        disk.snapshot()
+    };
+    // executes the last operation on a copy of `base` with a crash at its seam call `crash_at`
+    // (0 = none, counted from the end of open); returns (image, seam calls of the operation)
+    let exec = |crash_at: u64| -> Result<(Vec<u8>, u64), String> {
+        let disk = SimDisk::new(base.clone());
+        let mut lib = Lib::open(disk.clone(), false, case.bufsize).map_err(|r| format!("open failed: {}", r.brief()))?;
+        lib.budget_base = 400_000;
+        let k0 = disk.k();
+        if crash_at != 0 {
+            disk.0.borrow_mut().plan = vec![Fault { k: k0 + crash_at, kind: FaultKind::Crash }];
+        }
+        for op in case.ops[build_len..].iter() {
+            match lib.exec(op) {
+                Res::Panic(p) => return Err(format!("PANIC {}", p)),
+                Res::Hang => return Err("HANG".into()),
+                _ => {}
+            }
+        }
+        let span = disk.k() - k0;
+        // the image as the crash left it (dropping the objects afterwards cannot change it: every
+        // seam call after the crash point fails; forgetting them instead would leak their buffers)
+        let img = disk.snapshot();
+        disk.0.borrow_mut().plan = vec![Fault { k: 1, kind: FaultKind::Crash }];
+        disk.0.borrow_mut().crashed = true;
+        lib.close();
+        Ok((img, span))
+    };
+    let span = match exec(0) {
+        Ok((_, span)) => span,
+        Err(_) => {
+            o.stats.probe("base_unusable(other property)");
+            return o;
+        }
+    };
+    let (k0, k1) = (0u64, span);
+    let only = case.param("only_k", -1);
+    let mut hashes: BTreeSet<u64> = BTreeSet::new();
+    // at most 40 crash points per case, spread evenly over the operation (all of them when the
+    // operation makes fewer seam calls)
+    let stride = (span / 40).max(1);
+    let phase = case.param("build_len", 0) as u64 % stride;
+    'all: for k in (k0 + 1)..=k1 {
+        if only >= 0 && only as u64 != k {
+            continue;
+        }
+        if only < 0 && (k - k0 - 1) % stride != phase {
+            continue;
+        }
+        let img = match exec(k) {
+            Ok((img, _)) => img,
+            Err(_) => continue, // panics under faults are C13's business
+        };
+        o.stats.sub_runs += 1;
+        *o.stats.faults_fired.entry("F-CR".into()).or_insert(0) += 1;
+        hashes.insert(crate::prng::fnv(&img));
+        let mut lib = match Lib::open(SimDisk::new(img.clone()), false, case.bufsize) {
+            Ok(l) => l,
+            Err(_) => {
+                o.stats.probe("crash_image_rejected_by_open");
+                continue;
+            }
+        };
+        lib.budget_base = 400_000;
+        o.stats.probe("crash_image_accepted");
+        let streams: Vec<(String, u64)> = match lib.exec(&Op::Walk) {
+            Res::Listing(l) => l.iter().filter(|e| e.is_stream).map(|e| (e.path.clone(), e.len)).collect(),
+            _ => continue,
+        };
+        for (si, (path, len)) in streams.iter().enumerate() {
+            let before = match lib.exec(&Op::ReadWhole(path.clone())) {
+                Res::Bytes(b) if b.len() as u64 == *len => b,
+                _ => {
+                    o.stats.probe("crash_image_stream_unreadable");
+                    continue;
+                }
+            };
+            let grow = [1u64, 63, 64, 65, 500, 4096, 5000][(k as usize + si) % 7];
+            let steps = [Op::HOpen { h: 1, path: path.clone() }, Op::HSetLen { h: 1, n: len + grow }, Op::HFlush { h: 1 }, Op::HDrop { h: 1 }];
+            let mut failed = false;
+            for st in steps.iter() {
+                if lib.exec(st).is_err() {
+                    failed = true;
+                    break;
+                }
+            }
+            lib.drop_handle(1);
+            if failed {
+                o.stats.probe("grow_failed_on_crash_image");
+                continue;
+            }
+            o.stats.boundary_checks += 1;
+            o.stats.ok_mutations += 1;
+            for pass in 0..2 {
+                if pass == 1 {
+                    // and from the bytes alone
+                    let snap = lib.disk.snapshot();
+                    lib.close();
+                    lib = match Lib::open(SimDisk::new(snap), false, case.bufsize) {
+                        Ok(l) => l,
+                        Err(_) => continue 'all,
+                    };
+                    lib.budget_base = 400_000;
+                }
+                if let Res::Bytes(after) = lib.exec(&Op::ReadWhole(path.clone())) {
+                    let gained = if after.len() >= before.len() { &after[before.len()..] } else { &after[0..0] };
+                    let kept_ok = after.len() as u64 == len + grow && after[..before.len()] == before[..];
+                    if let Some(pos) = gained.iter().position(|b| *b != 0) {
+                        let mut rc = case.clone();
+                        rc.params.insert("only_k".into(), k as i64);
+                        o.replay_case = Some(rc);
+                        o.violations.push(Violation {
+                            property: "C08".into(),
+                            rule: "stale-after-grow".into(),
+                            site: "crash-image".into(),
+                            msg: format!(
+                                "crash at seam call {} of the last operation, reopened: {:?} had {} bytes; after set_len({}) byte {} reads {:#04x}, not zero ({})",
+                                k,
+                                path,
+                                len,
+                                len + grow,
+                                before.len() + pos,
+                                gained[pos],
+                                if pass == 0 { "same session" } else { "after reopening the bytes" }
+                            ),
+                            step: 0,
+                        });
+                        break 'all;
+                    }
+                    if !kept_ok {
+                        o.stats.probe("grown_stream_prefix_or_length_differs(not judged)");
+                    }
+                }
+            }
+        }
+        lib.close();
+    }
+    o.stats.state_hashes = hashes.iter().copied().collect();
+    o.stats.trace_hash = hashes.iter().fold(3, |a, b| a ^ crate::prng::mix(*b));
+    o.stats.nontrivial = o.stats.ok_mutations > 0;
+    o
+}
+
 pub fn gen(seed: u64, idx: u64, _tier: Tier) -> Case {
     let mut rng = Rng::for_case(seed, "C08", idx);
+    if idx % 64 == 7 {
+        return gen_crash(&mut rng);
+    }
     let k = Knobs { max_ops: 30, near_miss: &[0], pool: (2, 4), max_objects: 6, big_one_in: 8, big_stream: 40_000, small_stream: 9_000, spellings: &[0], case_variants: &[0], class_agreed_one_in: 1000, no_remove_with_open_handles: true, ..DEFAULT_KNOBS };
     let w = vec![
         ("write_whole", 10),
@@ -65,6 +279,9 @@ pub fn gen(seed: u64, idx: u64, _tier: Tier) -> Case {
 }
 
 pub fn run(case: &Case, known: &BTreeSet<String>) -> Outcome {
+    if case.mode == "crash-image" {
+        return run_crash(case);
+    }
     let mut o = runner::run_history(case, &flags(), known);
     let grows = o.stats.op_outcomes.get("h_set_len:ok").copied().unwrap_or(0) > 0;
     o.stats.nontrivial = o.stats.nontrivial && grows;
